@@ -209,6 +209,42 @@ def make_config(seed: int, i: int, force: dict | None = None) -> dict:
             a = r.choice(alts)
             for b_ in next((grp for grp in av_groups if a in grp), [a]):
                 row['A'][alts.index(b_)] = 1
+    if av_mode != 'none' and not (force.get('override') or {}).get('rows'):
+        # every alternative (not declared always available) is unavailable on at least one row
+        def unit(a):
+            return next((grp for grp in av_groups if a in grp), [a])
+
+        for a in alts:
+            if a in always or any(row['A'][alts.index(a)] == 0 for row in rows):
+                continue
+            u = unit(a)
+            cand = [k for k, row in enumerate(rows) if k >= 1 and any(x for b_, x in zip(alts, row['A']) if b_ not in u)]
+            if cand:
+                row = rows[r.choice(cand)]
+            else:
+                A = [int(r.random() < 0.7) for _ in alts]
+                rest = [b_ for b_ in alts if b_ not in u]
+                if rest and not any(A[alts.index(b_)] for b_ in rest):
+                    A[alts.index(r.choice(rest))] = 1
+                if not rest:
+                    continue  # the unit is the whole choice set: it cannot be unavailable
+                for grp in av_groups:
+                    x = A[alts.index(grp[0])]
+                    for b_ in grp:
+                        A[alts.index(b_)] = x
+                A = [1 if b_ in always else x for b_, x in zip(alts, A)]
+                row = {'V': [round(r.uniform(-vband, vband), 4) for _ in alts], 'A': A}
+                rows.append(row)
+            for b_ in u:
+                row['A'][alts.index(b_)] = 0
+            if not any(row['A']):  # cannot happen (cand / rest guarantee another available alternative)
+                row['A'][alts.index(a)] = 1
+        nrows = len(rows)
+    # insertion orders: utilities, availabilities, nest member lists, allocation dicts and the choice sets of the nest
+    # objects are each written in their own order (None: everything in the order of `alts`, the way examples are written)
+    order_seed = None if r.random() < 0.15 else r.randrange(10 ** 6)
+    if 'order_seed' in force:
+        order_seed = force['order_seed']
     one_kind = force.get('one_kind') or r.choice(['numeric', 'numeric', 'int', 'bool'])
     # utilities: sub-expression objects (the constant column, the generic coefficient, a common compound term)
     # either rebuilt for every alternative or ONE object reused by all of them
@@ -259,6 +295,7 @@ def make_config(seed: int, i: int, force: dict | None = None) -> dict:
         'av_share': av_share,
         'av_groups': av_groups,
         'one_kind': one_kind,
+        'order_seed': order_seed,
         'util_share': util_share,
         'common': common,
         'util_form': util_form,
@@ -318,9 +355,20 @@ def features(cfg: dict) -> dict:
         'rows_with_unavailable': sum(1 for row in cfg['rows'] if not all(row['A'])),
         'rows_single_available': sum(1 for row in cfg['rows'] if sum(row['A']) == 1),
         'same_nest_members_share_availability_object': len(shared_availability_in_nest(cfg)),
+        'utility_and_availability_dicts_in_different_orders': int(orders_differ(cfg)),
+        'every_alternative_unavailable_on_some_row': int(cfg['av_mode'] != 'none' and all(
+            any(row['A'][j] == 0 for row in cfg['rows']) for j, a in enumerate(alts) if a not in cfg['always'])),
         'availability_object_shared_across_nests': sum(
             1 for grp in shared_availability_sets(cfg) if len({_nest_of(cfg, a) for a in grp}) > 1),
     }
+
+
+def orders_differ(cfg: dict) -> bool:
+    """availability dictionary written in another insertion order than the utility dictionary"""
+    if cfg.get('order_seed') is None or cfg['av_mode'] == 'none':
+        return False
+    b = Builder(cfg)
+    return b._shuffled(cfg['alts'], 'util') != b._shuffled(cfg['alts'], 'av')
 
 
 def _nest_of(cfg, a):
@@ -415,6 +463,22 @@ class Builder:
         self.shift_value = shift_value
         self.free = {}  # name -> value of the free Betas created
 
+    # -- insertion orders ----------------------------------------------------
+    def _shuffled(self, items, what):
+        """the items in the order reserved for `what` (deterministic for the configuration, independent between
+        utilities, availabilities, nests, allocations and choice sets)"""
+        items = list(items)
+        seed = self.cfg.get('order_seed')
+        if seed is None:
+            return items
+        random.Random(f'{seed}-{what}').shuffle(items)
+        return items
+
+    def _reorder(self, d, what):
+        if d is None:
+            return None
+        return {a: d[a] for a in self._shuffled(list(d), what)}
+
     # -- leaves --------------------------------------------------------------
     def _param(self, name, value, kind):
         import biogeme.expressions as ex
@@ -482,7 +546,7 @@ class Builder:
             if shifted:
                 v = v + once('C', lambda: ex.Variable('C'))
             out[a] = v
-        return out
+        return self._reorder(out, 'util')
 
     def av(self):
         """availability dictionary in the object-sharing style of the configuration (see make_config)"""
@@ -521,7 +585,7 @@ class Builder:
                 out[a] = [ex.Numeric(1), 1, True][j % 3]
             else:
                 out[a] = ex.Variable(f'A{a}')
-        return out
+        return self._reorder(out, 'av')
 
     def mu(self, which, one=False):
         v = 1.0 if one else self.cfg['mu_' + which]
@@ -536,14 +600,16 @@ class Builder:
             p = self._param(f'MU_N{k}', 1.0 if all_one else n['param'], n['kind'])
             if all_one and n['kind'] == 'float' and k % 2:
                 p = 1  # a plain integer one
+            members = self._shuffled(n['alts'], f'nl{k}')
             if syntax == 'tuple':
-                items.append((p, list(n['alts'])))
+                items.append((p, members))
             else:
-                items.append(OneNestForNestedLogit(nest_param=p, list_of_alternatives=list(n['alts']),
+                items.append(OneNestForNestedLogit(nest_param=p, list_of_alternatives=members,
                                                    name=(f'nest{k}' if names else None)))
+        items = self._shuffled(items, 'nl_tuple')
         if syntax == 'tuple':
             return tuple(items)
-        return NestsForNestedLogit(choice_set=list(self.alts), tuple_of_nests=tuple(items))
+        return NestsForNestedLogit(choice_set=self._shuffled(self.alts, 'choice_nl'), tuple_of_nests=tuple(items))
 
     def _alpha(self, k, a, x):
         import biogeme.expressions as ex
@@ -562,14 +628,15 @@ class Builder:
         items = []
         for k, n in enumerate(spec if spec is not None else self.cfg['cnl']):
             p = self._param(f'MU_C{k}', n['param'], n['kind'])
-            alpha = {a: self._alpha(k, a, x) for a, x in n['alpha']}
+            alpha = {a: self._alpha(k, a, x) for a, x in self._shuffled(n['alpha'], f'alpha{k}')}
             if syntax == 'tuple':
                 items.append((p, alpha))
             else:
                 items.append(OneNestForCrossNestedLogit(nest_param=p, dict_of_alpha=alpha))
+        items = self._shuffled(items, 'cnl_tuple')
         if syntax == 'tuple':
             return tuple(items)
-        return NestsForCrossNestedLogit(choice_set=list(self.alts), tuple_of_nests=tuple(items))
+        return NestsForCrossNestedLogit(choice_set=self._shuffled(self.alts, 'choice_cnl'), tuple_of_nests=tuple(items))
 
     def partition_as_cnl_spec(self, with_zeros=False):
         """the nested structure written as a cross-nested one: alpha in {0,1}"""
